@@ -784,6 +784,16 @@ example : isStrictHull
     [⟨1 / 10, 1⟩, ⟨2, 0⟩, ⟨0, 0⟩, ⟨1, 0⟩, ⟨2, 2⟩, ⟨0, 2⟩, ⟨1 / 3, 1 / 3⟩] = true :=
   grahamHull_isStrictHull_f64_partial _ (by decide +kernel) (by decide +kernel)
 
+/-- [T] the driver SKIPs a case when `grahamTie rnd pivot pts` holds (evaluated on *all* input
+coordinates); outside that class the tie hypothesis of the two theorems above holds. -/
+theorem graham_skip_class_covers (rnd : Rat → Rat) (pts : List Pt)
+    (h : grahamTie rnd (swapRemove pts (leastIndex pts)).1 pts = false) :
+    grahamTie rnd (swapRemove pts (leastIndex pts)).1 (swapRemove pts (leastIndex pts)).2 = false :=
+  grahamTie_mono (swapRemove_snd_subset pts _) h
+
+example : grahamTie roundF64 ⟨0, 0⟩ (swapRemove [⟨1, 1⟩, ⟨0, 0⟩, ⟨3, 3⟩] (leastIndex [⟨1, 1⟩, ⟨0, 0⟩, ⟨3, 3⟩])).2 = false :=
+  graham_skip_class_covers roundF64 [⟨1, 1⟩, ⟨0, 0⟩, ⟨3, 3⟩] (by decide +kernel)
+
 /-- [T] **`grahamHull_isStrictHull`, exact scalar types** (`rnd = id`; `i64` without overflow):
 the Graham scan of the model returns the strict convex hull, for all inputs with three
 non-collinear coordinates — duplicates, collinear runs and any input order included. -/
